@@ -108,3 +108,11 @@ register("C08", "simlab.profiles.c08", "exploration", budgets={"quick": dict(run
                "non-trivial = optimisation returning bond dimension > 1; distinct = distinct (method, algo, roots, omega, iterative, max_cycle, svd-fault, stacked, swapping, bonds, sweeps)"),
          assumptions=COMMON_ASSUMPTIONS + ["numpy eigh of the sector block is the exact reference", "equality at full bond dimension is asserted only for converged fault-free schedules with tolerance 20*max(e_rtol|E|, e_atol)"],
          seams=_CHAIN_SEAMS + ["SimSolver (davidson as seen from mps.gs: max_cycle / max_memory)", "direct-vs-iterative cut-off knob (np.prod proxy in mps.gs)", "SimLAPACK"], design_ref="4/C08")
+
+register("C17", "simlab.profiles.c17", "exploration", budgets={"quick": dict(runs=1200, timeout=300), "thorough": dict(runs=40000, timeout=600)},
+         rule=("each run = one seeded session: random symmetric integrals -> qc_model/Mpo vs a harness-assembled fermionic matrix; optimize_mps and two-site TDVP with on-the-fly "
+               "swapping driven by the natural criteria or by scheduler-forced decisions (SimSwap), direct try_swap_site sequences; after each the re-ordered operator equals the "
+               "original in the new order (fermionic sign map for Jordan-Wigner models), the spectrum/variational bound is unchanged and the state permuted back is consistent. "
+               "non-trivial = bond dimension > 1; distinct = distinct (operation, criterion, jw, forced, bonds, sweeps)"),
+         assumptions=COMMON_ASSUMPTIONS + ["the fermionic reference uses the harness's own Jordan-Wigner operators (independent of h_qc.py)"],
+         seams=_CHAIN_SEAMS + ["SimSwap (calc_vn_entropy as seen from mps.mp: scheduler-forced swap decisions with OFS-S)", "SimLAPACK"], design_ref="4/C17")
